@@ -305,7 +305,7 @@ func gid() int64 {
 
 // raceReports counts the data race report blocks this process has written so far.
 func raceReports() (int, string) {
-	p := filepath.Join(harness.Root, "work", "C11", fmt.Sprintf("race.%d", os.Getpid()))
+	p := filepath.Join(harness.Root, "work", "C11"+os.Getenv("VERIF_WORKDIR_SUFFIX"), fmt.Sprintf("race.%d", os.Getpid()))
 	b, err := os.ReadFile(p)
 	if err != nil {
 		return 0, ""
